@@ -31,3 +31,9 @@ Proof. reflexivity. Qed.
    only, which the model does not represent (finding F1) *)
 Lemma source_tracer_exits : gc_recurse_returns = 2 /\ gc_mark_shape_ok = true.
 Proof. split; reflexivity. Qed.
+
+(* heap view objects (Zip, Slice, Range allocated with new) keep their internal objects in MANAGED storage: the
+   model (and the correspondence scripts, op V) treats them as ordinary registered nodes — the view's words lead to
+   its internal Tuple / Range, whose items / words lead to the inputs *)
+Lemma source_view_internals : view_internals_registered = true.
+Proof. reflexivity. Qed.
